@@ -1483,7 +1483,9 @@ func nonEmptyTest(cond ssa.Value, isList func(ssa.Value) bool, depth int) (pos, 
 
 // noNilTest does the same for "the list holds no nil element": pos = "true only if no element
 // is nil", neg = "false only if no element is nil". The test itself is lo.Contains(list, nil) /
-// slices.Contains(list, nil) (true when there IS a nil element).
+// slices.Contains(list, nil) (true when there IS a nil element), or a predicate of the module
+// that is handed the list and whose body shows that it answers false only if no element is
+// nil (falseOnlyIfNoNil: a hand-written loop over the list, a wrapper of lo.Contains).
 func noNilTest(cond ssa.Value, isList func(ssa.Value) bool, depth int) (pos, neg bool) {
 	return listTest(cond, isList, containsNilTest, depth)
 }
@@ -1528,19 +1530,194 @@ func lenTest(cond ssa.Value, isList func(ssa.Value) bool) (pos, neg bool) {
 }
 
 func containsNilTest(cond ssa.Value, isList func(ssa.Value) bool) (pos, neg bool) {
+	return containsNilTestD(cond, isList, 0)
+}
+
+func containsNilTestD(cond ssa.Value, isList func(ssa.Value) bool, depth int) (pos, neg bool) {
 	c, ok := cond.(*ssa.Call)
-	if !ok || len(c.Call.Args) != 2 {
+	if !ok {
 		return false, false
 	}
 	switch calleeName(&c.Call) {
 	case "github.com/samber/lo.Contains", "slices.Contains":
-	default:
+		if len(c.Call.Args) == 2 && isList(c.Call.Args[0]) && isNilConst(unwrap(c.Call.Args[1])) {
+			return false, true
+		}
 		return false, false
 	}
-	if isList(c.Call.Args[0]) && isNilConst(unwrap(c.Call.Args[1])) {
-		return false, true
+	// a predicate of the module is judged by its body: it answers false only if no element of
+	// the list it is handed is nil (`func hasNil(l) bool { for _, e := range l { if e == nil {
+	// return true } }; return false }`, or a wrapper of lo.Contains(l, nil))
+	sc := c.Call.StaticCallee()
+	if sc == nil || !inModule(sc) || sc.Blocks == nil || depth > 2 {
+		return false, false
+	}
+	res := sc.Signature.Results()
+	if res.Len() != 1 || !types.Identical(res.At(0).Type().Underlying(), types.Typ[types.Bool]) {
+		return false, false
+	}
+	for i, a := range c.Call.Args {
+		if i < len(sc.Params) && isList(a) && falseOnlyIfNoNil(sc, sc.Params[i], depth) {
+			return false, true
+		}
 	}
 	return false, false
+}
+
+// falseOnlyIfNoNil: the predicate fn can answer false only if no element of its slice
+// parameter is nil. Every return of fn yields the constant true, or the outcome of such a test
+// of the parameter (lo.Contains(param, nil), another predicate of this kind), or lies behind
+// the exit of a loop that has compared every element of the parameter with nil and has gone
+// on to the next element only on the non-nil side of that comparison.
+func falseOnlyIfNoNil(fn *ssa.Function, param *ssa.Parameter, depth int) bool {
+	if _, ok := param.Type().Underlying().(*types.Slice); !ok {
+		return false
+	}
+	exits := nilScanExits(fn, param)
+	isParam := func(v ssa.Value) bool { return unwrap(v) == ssa.Value(param) }
+	rets := returnsOf(fn)
+	for _, ret := range rets {
+		rv := retVals(ret)
+		if len(rv) != 1 {
+			return false
+		}
+		if c, ok := rv[0].(*ssa.Const); ok && c.Value != nil && c.Value.ExactString() == "true" {
+			continue
+		}
+		behind := false
+		for _, x := range exits {
+			if x == ret.Block() || x.Dominates(ret.Block()) {
+				behind = true
+			}
+		}
+		if behind {
+			continue
+		}
+		if _, n := listTest(rv[0], isParam, func(v ssa.Value, l func(ssa.Value) bool) (bool, bool) {
+			return containsNilTestD(v, l, depth+1)
+		}, depth+1); n {
+			continue
+		}
+		return false
+	}
+	return len(rets) > 0
+}
+
+// nilScanExits: the blocks of fn that are entered only when a loop over the slice parameter
+// has run to its end (index >= len(param)) and every round of that loop has compared the
+// element at the index with nil and has reached the next round only on the non-nil side. The
+// index starts at 0 and advances by one (`for _, e := range param`, `for i := range param`,
+// `for i := 0; i < len(param); i++`), and fn does not store into the slice.
+func nilScanExits(fn *ssa.Function, param *ssa.Parameter) []*ssa.BasicBlock {
+	for _, ref := range *param.Referrers() {
+		if ia, ok := ref.(*ssa.IndexAddr); ok {
+			for _, r2 := range *ia.Referrers() {
+				if st, ok := r2.(*ssa.Store); ok && st.Addr == ssa.Value(ia) {
+					return nil
+				}
+			}
+		}
+	}
+	isLen := func(v ssa.Value) bool {
+		cl, ok := v.(*ssa.Call)
+		if !ok {
+			return false
+		}
+		b, ok := cl.Call.Value.(*ssa.Builtin)
+		return ok && b.Name() == "len" && unwrap(cl.Call.Args[0]) == ssa.Value(param)
+	}
+	plusOne := func(v ssa.Value, of ssa.Value) bool {
+		b, ok := v.(*ssa.BinOp)
+		return ok && b.Op == token.ADD && b.X == of && isIntConst(b.Y, 1)
+	}
+	var out []*ssa.BasicBlock
+	for _, h := range fn.Blocks {
+		if len(h.Instrs) == 0 || len(h.Succs) != 2 {
+			continue
+		}
+		iff, ok := h.Instrs[len(h.Instrs)-1].(*ssa.If)
+		if !ok {
+			continue
+		}
+		cond, ok := iff.Cond.(*ssa.BinOp)
+		if !ok || cond.Op != token.LSS || !isLen(cond.Y) {
+			continue
+		}
+		// cur: the index of this round; phi: the induction variable behind it
+		cur := cond.X
+		var phi *ssa.Phi
+		var first int64
+		switch x := cur.(type) {
+		case *ssa.Phi: // for i := 0; i < len(l); i++
+			phi, first = x, 0
+		case *ssa.BinOp: // range: phi starts at -1, the index is phi+1
+			if p, ok := x.X.(*ssa.Phi); ok && plusOne(x, p) {
+				phi, first = p, -1
+			}
+		}
+		if phi == nil || phi.Block() != h {
+			continue
+		}
+		done := h.Succs[1]
+		if done == h || len(done.Preds) != 1 {
+			continue
+		}
+		good, rounds := true, 0
+		for i, e := range phi.Edges {
+			if isIntConst(e, first) {
+				continue // (re)start of the scan
+			}
+			next := e == cur
+			if first == 0 {
+				next = plusOne(e, phi)
+			}
+			if !next || !onlyAfterNonNil(h.Preds[i], h, param, cur) {
+				good = false
+				break
+			}
+			rounds++
+		}
+		if good && rounds > 0 {
+			out = append(out, done)
+		}
+	}
+	return out
+}
+
+// onlyAfterNonNil: the edge from -> header is taken only after param[index] has been compared
+// with nil in this round of the loop and was found to be non-nil.
+func onlyAfterNonNil(from, header *ssa.BasicBlock, param *ssa.Parameter, index ssa.Value) bool {
+	isElem := func(v ssa.Value) bool {
+		ld, ok := unwrap(v).(*ssa.UnOp)
+		if !ok || ld.Op != token.MUL {
+			return false
+		}
+		ia, ok := ld.X.(*ssa.IndexAddr)
+		return ok && unwrap(ia.X) == ssa.Value(param) && ia.Index == index
+	}
+	for d := from; d != nil; d = d.Idom() {
+		if len(d.Instrs) > 0 && len(d.Succs) == 2 {
+			if iff, ok := d.Instrs[len(d.Instrs)-1].(*ssa.If); ok {
+				if c, ok := iff.Cond.(*ssa.BinOp); ok && (c.Op == token.EQL || c.Op == token.NEQ) &&
+					(isElem(c.X) && isNilConst(unwrap(c.Y)) || isElem(c.Y) && isNilConst(unwrap(c.X))) {
+					nonNil, isNil := d.Succs[1], d.Succs[0]
+					if c.Op == token.NEQ {
+						nonNil, isNil = isNil, nonNil
+					}
+					switch {
+					case d == from && nonNil == header && isNil != header:
+						return true
+					case nonNil != isNil && len(nonNil.Preds) == 1 && nonNil != header && (nonNil == from || nonNil.Dominates(from)):
+						return true
+					}
+				}
+			}
+		}
+		if d == header {
+			break
+		}
+	}
+	return false
 }
 
 // listTest: base recognises the elementary test; negation and predicates of the module whose
